@@ -187,4 +187,5 @@ def realistic():
 
 TRANSFORMATIONS = [["none"], ["or", "2"], ["xor", "2"], ["eq", "2"], ["neq", "3"], ["maj", "3"], ["ite"], ["one", "2"],
                    ["atleast", "3", "2"], ["atmost", "3", "1"], ["exact", "3", "2"], ["anybut", "3", "1"], ["lift", "2"],
-                   ["flip"], ["shuffle"], ["shuffle", "--no-polarity-flips"], ["shuffle", "--no-clauses-permutation"]]
+                   ["flip"], ["shuffle"], ["shuffle", "--no-polarity-flips"], ["shuffle", "--no-clauses-permutation"],
+                   ["shuffle", "--no-polarity-flips", "--no-variables-permutation", "--no-clauses-permutation"]]
